@@ -39,10 +39,11 @@ theorem rejected_with_valueError (P : Params) (hnan : NaNLiteral P) (hd : Digits
       CounterLikeNaN P (linesOf P text) ∨ CounterLikeNegative P (linesOf P text) ∨ QuantileOutOfRange P (linesOf P text) ∨
       CountNotIntegral P (linesOf P text) ∨ BucketBoundNaN P (linesOf P text) ∨ ExemplarIneligible (linesOf P text) ∨
       TimestampBackwards P (linesOf P text) ∨ TimestampPartial (linesOf P text) ∨
-      HistBoundsNotIncreasingDoc P (linesOf P text) ∨ HistCountsNotCumulativeDoc P (linesOf P text)) :
+      HistBoundsNotIncreasingDoc P (linesOf P text) ∨ HistCountsNotCumulativeDoc P (linesOf P text) ∨
+      HistNoInfDoc P (linesOf P text) ∨ HistCountNeInfDoc P (linesOf P text)) :
     omParse P text = .error .valueError := by
   apply rule_violation_is_valueError P hnan hd text
-  rcases h with h | h | h | h | h | h | h | h | h | h | h | h | h | h | h | h | h | h | h | h | h | h
+  rcases h with h | h | h | h | h | h | h | h | h | h | h | h | h | h | h | h | h | h | h | h | h | h | h | h
   · exact missing_eof P _ h
   · exact content_after_eof P _ h
   · exact blank_line P _ h
@@ -65,6 +66,8 @@ theorem rejected_with_valueError (P : Params) (hnan : NaNLiteral P) (hd : Digits
   · exact timestamp_partial P _ h
   · exact hist_bounds_not_increasing P _ h
   · exact hist_counts_not_cumulative P _ h
+  · exact hist_no_inf_document P _ h
+  · exact hist_count_ne_inf_document P _ h
 
 /-! ## duplicate label names -/
 
@@ -369,5 +372,51 @@ example : HistCountNeInf toyP cs!"a" [bk "+Inf" 2, mkS "a_count" [] (.int 3), mk
       · exact ⟨⟨rfl, by decide, rfl, ⟨[], rfl, rfl⟩, fun h => absurd h (by decide)⟩, by decide, by decide⟩
       · exact ⟨⟨rfl, by decide, rfl, ⟨[], rfl, rfl⟩, fun h => absurd h (by decide)⟩, by decide, by decide⟩,
     rfl, rfl, by decide, trivial⟩
+
+/-- the same two rules on the lines of a document: the group closed by `# EOF` … -/
+example : HistNoInfDoc toyP [ty "a" "histogram", smp (bk "1" 1), smp (bk "2" 1), smp (mkS "a_count" [] (.int 1)), .eof] :=
+  ⟨[], cs!"a", cs!"histogram", [smp (bk "1" 1)], [bk "2" 1, mkS "a_count" [] (.int 1)], [.eof], rfl, Or.inl rfl,
+    (by intro l hl; simp only [List.mem_singleton] at hl; subst hl; intro s hs; cases hs; decide),
+    (by intro s hs; simp only [List.mem_cons, List.not_mem_nil, or_false] at hs; rcases hs with rfl | rfl <;> decide),
+    (by decide),
+    (by
+      intro nh s hs x hx
+      simp only [List.mem_singleton, smp, Line.sample.injEq, Except.ok.injEq] at hs
+      obtain ⟨_, rfl⟩ := hs
+      simp only [List.mem_cons, List.not_mem_nil, or_false] at hx
+      rcases hx with rfl | rfl <;> decide),
+    bk "2" 1, [mkS "a_count" [] (.int 1)], 5, [], isBucket_bk "2" 1 5 (by decide), by decide,
+    (by
+      intro s hs
+      simp only [List.mem_singleton] at hs
+      subst hs
+      exact ⟨rfl, by decide, rfl, ⟨[], rfl, rfl⟩, fun h => absurd h (by decide)⟩),
+    rfl, Or.inl ⟨rfl, Or.inr ⟨.eof, [], rfl, Or.inl (fun _ _ h => by cases h)⟩⟩⟩
+
+/-- … and by a bucket line of another label group, whatever follows -/
+example (rest : List Line) : HistNoInfDoc toyP
+    (ty "a" "histogram" :: smp (bk "1" 1) :: smp (mkS "a_bucket" [(cs!"le", cs!"+Inf"), (cs!"x", cs!"y")] (.int 1)) :: rest) :=
+  ⟨[], cs!"a", cs!"histogram", [], [bk "1" 1, mkS "a_bucket" [(cs!"le", cs!"+Inf"), (cs!"x", cs!"y")] (.int 1)], rest, rfl, Or.inl rfl,
+    (by intro l hl; cases hl),
+    (by intro s hs; simp only [List.mem_cons, List.not_mem_nil, or_false] at hs; rcases hs with rfl | rfl <;> decide),
+    (by decide), (by intro nh s hs; cases hs),
+    bk "1" 1, [], 4, [], isBucket_bk "1" 1 4 (by decide), by decide, (by intro s hs; cases hs), rfl,
+    Or.inr ⟨_, rfl, rfl, by decide, [(cs!"x", cs!"y")], by decide, Or.inl (by decide)⟩⟩
+
+/-- `_count` ≠ the `+Inf` bucket, the family closed by the next family's `# TYPE` line -/
+example (rest : List Line) : HistCountNeInfDoc toyP
+    (ty "a" "histogram" :: smp (bk "+Inf" 2) :: smp (mkS "a_sum" [] (.int 1)) :: smp (mkS "a_count" [] (.int 3)) :: ty "b" "gauge" :: rest) :=
+  ⟨[], cs!"a", cs!"histogram", [], [bk "+Inf" 2, mkS "a_sum" [] (.int 1), mkS "a_count" [] (.int 3)], ty "b" "gauge" :: rest, rfl, Or.inl rfl,
+    (by intro l hl; cases hl),
+    (by intro s hs; simp only [List.mem_cons, List.not_mem_nil, or_false] at hs; rcases hs with rfl | rfl | rfl <;> decide),
+    (by decide), (by intro nh s hs; cases hs),
+    bk "+Inf" 2, [mkS "a_sum" [] (.int 1)], mkS "a_count" [] (.int 3), [], 1, [], .int 2, .int 3, isBucket_bk "+Inf" 2 1 (by decide),
+    (by
+      intro s hs
+      simp only [List.mem_singleton] at hs
+      subst hs
+      exact ⟨rfl, by decide, rfl, ⟨[], rfl, rfl⟩, fun h => absurd h (by decide)⟩),
+    Or.inl rfl, ⟨rfl, by decide, rfl, ⟨[], rfl, rfl⟩, fun h => absurd h (by decide)⟩, (by intro s hs; cases hs),
+    rfl, rfl, by decide, rfl, Or.inl ⟨rfl, Or.inr ⟨_, rest, rfl, Or.inl (fun _ _ h => by cases h)⟩⟩⟩
 
 end PromVerif.Props.C15
